@@ -102,15 +102,22 @@ class SendUnitDataRequestPacket(RequestPacket):
 
     def __init__(self, sequence: cycle):
         super().__init__()
-        self._sequence = next(sequence) if isinstance(sequence, Generator) else sequence
+        # the sequence count is taken when the request is sent, a call builds all of its requests (and the
+        # members of multi-service packets, which are never sent on their own) before it sends the first one
+        self._sequence = sequence
+        self._sequence_count = sequence if isinstance(sequence, int) else 0
 
     def _setup_message(self):
         super()._setup_message()
-        self._msg.append(UINT.encode(self._sequence))
+        self._msg.append(UINT.encode(self._sequence_count))  # first item of the message
 
     def build_request(
         self, target_cid: bytes, session_id: int, context: bytes, option: int, **kwargs
     ):
+        if isinstance(self._sequence, Generator):
+            self._sequence_count = next(self._sequence)
+            if self._msg_setup:  # the message was already put together (e.g. to learn its size)
+                self._msg[0] = UINT.encode(self._sequence_count)
 
         return super().build_request(target_cid, session_id, context, option, **kwargs)
 
